@@ -53,6 +53,22 @@ def mk_id(code, scheme):
     return frozenset([code, -1])
 
 
+def fresh(o):
+    """an object equal to `o` but (whenever Python allows) not identical to it or to any earlier one: ids are compared with ==,
+    never with `is` (CPython caches small ints and interned strings, so literals would hide an identity test)"""
+    if isinstance(o, bool):
+        return o
+    if isinstance(o, int):
+        return int(str(o)) if abs(o) > 256 else o
+    if isinstance(o, str):
+        return "".join(list(o)) if len(o) > 1 else o
+    if isinstance(o, tuple):
+        return tuple(fresh(x) for x in o)
+    if isinstance(o, frozenset):
+        return frozenset(list(o))
+    return o
+
+
 def _strict(conv, exc):
     """`conv`, except that a failed conversion raises `exc` instead of ValueError"""
     def f(x):
@@ -97,7 +113,7 @@ class Impl:
     def I(self, code):
         o = mk_id(code, self.ids)
         self.rev[o] = code
-        return o
+        return fresh(o)
 
     def C(self, obj):
         if obj in self.rev:
@@ -205,7 +221,9 @@ class Impl:
     def op_addfrom(self, s, t, e, k, *rest):
         # the documented element forms: 2-tuples (u, v) and 3-tuples (u, v, d) with a data dictionary, in any container
         prs = self._pairs(k, rest)
-        shaped = [((u, v, {"w": i}) if i % 3 == 1 else (u, v)) for i, (u, v) in enumerate(prs)]
+        # (the dictionaries are data: what interactions() of another graph yields, {'t': [[a, b]]}, included)
+        shaped = [((u, v, ({"w": i} if i % 2 else {"t": [[-7, -7 + i]]})) if i % 3 == 1 or (i % 3 == 0 and len(prs) % 4 == 1) else (u, v))
+                  for i, (u, v) in enumerate(prs)]
         bunch = shaped if len(prs) % 2 == 0 else iter(shaped)
         if len(prs) % 3 == 0:
             self.G(s).add_interactions_from(bunch, tok(t), tok(e))
@@ -239,14 +257,19 @@ class Impl:
         (G.add_cycle if hasattr(G, "add_cycle") else (lambda n, t: dn.add_cycle(G, n, t)))(self._nodes(k, rest), t=tok(t))
         return "ok"
 
+    @staticmethod
+    def _ekw(k, rest):
+        """the vanishing time of the module-level wrappers travels in **attr"""
+        return {"e": int(rest[int(k)])} if len(rest) > int(k) else {}
+
     def op_fpath(self, s, t, k, *rest):
-        dn.add_path(self.G(s), self._nodes(k, rest), tok(t)); return "ok"
+        dn.add_path(self.G(s), self._nodes(k, rest), tok(t), **self._ekw(k, rest)); return "ok"
 
     def op_fstar(self, s, t, k, *rest):
-        dn.add_star(self.G(s), self._nodes(k, rest), tok(t)); return "ok"
+        dn.add_star(self.G(s), self._nodes(k, rest), tok(t), **self._ekw(k, rest)); return "ok"
 
     def op_fcycle(self, s, t, k, *rest):
-        dn.add_cycle(self.G(s), self._nodes(k, rest), tok(t)); return "ok"
+        dn.add_cycle(self.G(s), self._nodes(k, rest), tok(t), **self._ekw(k, rest)); return "ok"
 
     def op_node(self, s, n):
         self.G(s).add_node(self.I(int(n))); return "ok"
@@ -522,7 +545,7 @@ class Impl:
     DELIMS = [" ", ",", "\t", ";"]
     # delimiters of the file round trips only: also characters that are special in regular expressions, and a two-character one
     FILE_DELIMS = DELIMS + ["|", ".", "$", "::", "*", "?", "(", "\\"]
-    ENCS = ["utf-8", "latin-1"]
+    ENCS = ["utf-8", "latin-1", "utf-16", "utf-8-sig"]     # the last two start the stream with a byte order mark
 
     def op_filert(self, kind, src, dst, target, delim, enc, cm="35"):
         """write_snapshots/write_interactions to a real target, read back with matching arguments"""
@@ -540,7 +563,7 @@ class Impl:
             if target == 3:
                 # an open binary file is written from its current position: every other time the caller has already
                 # written a comment header to it
-                head = ("%s %d nodes\n" % (chr(int(cm)), len(G._node))).encode(en) if (len(G._node) + int(delim)) % 2 else b""
+                head = ("%s %d nodes\n" % (chr(int(cm)), len(G._node))).encode(en) if (len(G._node) + int(delim)) % 2 and int(enc) < 2 else b""
                 with open(p, "wb") as fh:
                     fh.write(head)
                     wr(G, fh, delimiter=d, encoding=en)
@@ -752,7 +775,7 @@ class Impl:
             r["isempty"] = guard(lambda: 1 if dn.is_empty(G) else 0)
             r["nonint"] = guard(lambda: (lambda l: {"n": len(l), "set": sorted(sorted([C(a), C(b)]) for a, b in l)})(list(dn.non_interactions(G, t))))
             per = {}
-            for n in list(G._node) + [self.I(99)]:
+            for n in [self.I(C(k)) for k in G._node] + [self.I(99)]:    # fresh equal objects, not the stored keys
                 c = C(n)
                 e = {}
                 if c == 99:
@@ -1006,6 +1029,17 @@ class Impl:
         PT = ["shortest", "fastest", "foremost", "fastest_shortest", "shortest_fastest"][int(ptype)]
         al = [int(x) / 100.0 for x in alphas[:int(k)]]
         return self._conf_out(delta_conformity(G, int(start), int(delta), al, ["a"], path_type=PT))
+
+    def op_confw(self, s, start, delta, ptype, na, *rest):
+        """delta_conformity for any exponents; the line carries, per exponent, its key (alpha * 100) and the powers d ** alpha the
+        model is to use (the implementation just receives alpha): confw slot start delta ptype na (key100 nd (num den)*nd)*na"""
+        from dynetx.algorithms.assortativity import delta_conformity
+        rest = list(rest); al = []
+        for _ in range(int(na)):
+            al.append(int(rest[0]) / 100.0)
+            del rest[:2 + 2 * int(rest[1])]
+        PT = ["shortest", "fastest", "foremost", "fastest_shortest", "shortest_fastest"][int(ptype)]
+        return self._conf_out(delta_conformity(self.G(s), int(start), int(delta), al, ["a"], path_type=PT))
 
     def op_confp(self, s, start, delta, ptype, psize, nl, *rest):
         """delta_conformity with several labels and profile_size: confp slot start delta ptype psize  nl l..  na a..  nt (node label value)*"""
